@@ -41,9 +41,6 @@ Proof.
     + right; exists m; auto.
 Qed.
 
-Lemma concat_app' {A} (a b : list (list A)) : concat (a ++ b) = concat a ++ concat b.
-Proof. apply concat_app. Qed.
-
 (* count *)
 Lemma count_app {A} (p : A -> bool) a b : count p (a ++ b) = count p a + count p b.
 Proof. unfold count. rewrite filter_app, zlen_app. reflexivity. Qed.
@@ -286,9 +283,6 @@ Proof.
     rewrite <- zskipn_zskipn by lia. rewrite zskipn_app_exact. reflexivity. }
   rewrite F, S, <- app_assoc. reflexivity.
 Qed.
-
-Lemma firstn_app_2' {A} (a b : list A) n : firstn (length a + n) (a ++ b) = a ++ firstn n b.
-Proof. apply firstn_app_2. Qed.
 
 Lemma bios_copy_prefix els a off fb : 0 <= off ->
   bios_copy els (zlen a + off) (a ++ fb) = omap (app a) (bios_copy els off fb).
@@ -1857,9 +1851,6 @@ Proof. intros G H. apply parse_flash_of in H. eapply parse_flash_inv; eauto. Qed
 Lemma wf_len15 t : wf_tree t -> length (t_slots t) = 15%nat.
 Proof. intros (_ & L & _). exact L. Qed.
 
-Lemma good_len img : good_img img -> 0 <= ifd_desc_len -> True.
-Proof. auto. Qed.
-
 (* the saved image of any tree obtained from [img] by tighten_me steps *)
 Lemma save_split pol t out : wf_tree t -> desc_bounds t -> save pol t = Ok out ->
   zfirstn ifd_desc_len out = assemble_ifd t /\ zskipn ifd_desc_len out = body t /\
@@ -1870,10 +1861,6 @@ Proof.
   pose proof (zlen_assemble_ifd_b t B L (wf_len15 _ W)) as LA.
   rewrite <- LA. rewrite zfirstn_app_exact, zskipn_app_exact, zlen_app. auto.
 Qed.
-
-Lemma tightened_bounds t f0 f1 rest pre mb fp fso els bl post :
-  desc_bounds t -> desc_bounds (tightened t f0 f1 rest pre mb fp fso els bl post).
-Proof. intros H. exact H. Qed.
 
 Lemma tm_bounds pol t t' : wf_tree t -> desc_bounds t -> tm pol t = Ok t' -> desc_bounds t'.
 Proof.
@@ -1886,10 +1873,6 @@ Proof.
   intros W H. destruct (tm_inv _ _ _ W H) as (f0 & f1 & rest & pre & mb & fp & fso & els & bl & post & TF & ->).
   apply body_tightened. apply TF.
 Qed.
-
-Lemma img_split img : good_img img -> ifd_desc_len <= zlen img ->
-  zlen (zskipn ifd_desc_len img) = zlen img - ifd_desc_len.
-Proof. intros _ H. apply zlen_zskipn. consts. lia. Qed.
 
 (* tm_bytes_outside_descriptor_unchanged + tm_size *)
 Lemma c12_bytes_outside img t pol t' out : good_img img -> parse img = Ok (RootFlash t, pol) ->
